@@ -224,6 +224,9 @@ func (c *Cond) Wait() {
 		return
 	}
 	st := c.state()
+	// joining the wait list is a step of its own: a Broadcast between the caller's look at its predicate and
+	// this point is lost unless the predicate is protected by c.L (which the caller still holds here)
+	vrt.Point(&vrt.Op{Kind: "condwait-enter", Obj: st})
 	tk := &ticket{}
 	s.Mu.Lock()
 	st.waiters = append(st.waiters, tk)
